@@ -660,6 +660,7 @@ def task_mirror(ctx, repo):
             tag = 'mirror.trace.%s.%d' % ('ghost' if with_ghost else
                                           'noghost', i)
             sol = z3.Solver()
+            sol.set('timeout', 10000)
             sol.add(*[S.to_z3(c) for c in o.pc])
             sol.add(nO > 0)
             some_leave = sol.check() != z3.unsat
@@ -812,6 +813,7 @@ def task_steppers(ctx, repo):
                     ok = o.kind == 'return' and isinstance(val, dict)
                     why = 'returned %r' % (val,)
                     sol = z3.Solver()
+                    sol.set('timeout', 10000)
                     sol.add(*[S.to_z3(c) for c in o.pc])
                     sol.add(isE)
                     on_branch = sol.check() != z3.unsat
